@@ -726,6 +726,18 @@ def _units(ctx):
                default[0][0] if default else None),
            construct='default base of size_to_bytes')
 
+    # the suffix table: B K M G T P E Z Y are successive powers of the base
+    # (1T = 1024G, 1P = 1024T)
+    scale = utils.consts.get('_SIZE_SCALE')
+    table = K.fold_literal_table(scale) if scale is not None else None
+    want = dict((s, i) for i, s in enumerate('BKMGTPEZY'))
+    ctx.ob('C01.7', s2b, None, table == want,
+           'the size suffixes B K M G T P E Z Y stand for successive powers '
+           'of the base (found %s)' % (sorted(
+               table.items(), key=lambda kv: kv[1]) if isinstance(
+                   table, dict) else 'a table that is not a literal'),
+           construct='size suffix order')
+
     def divisor(func, callee):
         for sub in K.walk_no_nested(func.node):
             if not isinstance(sub, ast.Return) or sub.value is None:
@@ -908,6 +920,9 @@ def _declared_capacity(ctx):
            'is_same compares the partition labels and requires the declared '
            'capacity to be equal in every dimension (%s)' % text[:100],
            construct='is_same covers capacity')
+    ctx.ob('C01.5', same, None, 'traits' in text,
+           'is_same compares the traits of the two servers',
+           construct='is_same covers traits')
 
 
 def check(ctx):
